@@ -177,3 +177,18 @@ Example c19_nonvacuous_further_signals :
   sd_all_handled [mk_sd_sig 350000000 9] = false /\
   sd_exit_time_x 1000000000 3000000000 c19_ex [mk_sd_sig 350000000 15; mk_sd_sig 1400000000 1] = 2511000000.
 Proof. vm_compute. repeat split. Qed.
+
+(** The known finding (c19_drained_but_failure_refuted) with timings whose outcome does not hinge on a race: Shutdown timeout
+    G - W = 761 ms, the request in flight completes 662 ms after the close instant: at least 99 ms after the latest possible
+    instant of the 10th poll (562.1 ms), 99 ms before the deadline, and the 11th poll cannot come before 1011 ms, 250 ms after
+    the deadline. Everything completes in time, yet the exit status is 1. The scenario is robust in the sense of
+    Model/Shutdown.v:sd_robust for each wait-before period used by the driver; the timings used before (deadline 11 ms ahead
+    of a poll: W = 0, G = 1 s, completion at 0.75 s) are not. *)
+Definition c19_demo (W : Z) : list (sd_req * bool) := [(mk_sd_req (-250000000) (W + 662000000 + 250000000), true)].
+Example c19_known_finding_robust :
+  forallb (fun W => sd_robust W (W + 761000000) (c19_demo W)
+                    && (sd_exit_code W (W + 761000000) (map fst (c19_demo W)) =? 1)
+                    && sd_all_complete W (W + 761000000) (map fst (c19_demo W)))
+          [0; 500000000; 1000000000] = true /\
+  sd_robust 0 1000000000 [(mk_sd_req (-250000000) 1000000000, false)] = false.
+Proof. vm_compute. split; reflexivity. Qed.
